@@ -62,7 +62,9 @@ def y_menu(world):
            Req('stop', label='stop(all)'), Req('start', label='start(all)'), Req('restart', label='restart(*)', name='*'),
            Req('reload', label='reload(all)'),
            Req('stop', label='stop([ab])', name='[ab]'), Req('start', label='start([ab])', name='[ab]'),
-           Req('restart', label='restart([ab])', name='[ab]')]
+           Req('restart', label='restart([ab])', name='[ab]'),
+           # the same kind of request sent as a cast (what plugins send): nobody is answered, and nothing may happen later
+           Req('incr', label='incr(a,cast)', name='a', cast=True), Req('stop', label='stop(b,cast)', name='b', cast=True)]
     return [Y(e) for e in evs]
 
 
@@ -224,6 +226,14 @@ def run(scn, ch):
                 continue
             exclusive = ev.command in EXCLUSIVE
             if not exclusive:
+                continue
+            if ev.props.get('cast'):
+                # a cast is not answered; refused means: it has no effect, now (nothing changed, nothing left pending on the
+                # loop that was not there before) ...
+                res.check('C10.no_effect', before == after,
+                          lambda: 'cast Y=%s sent while %r held the slot changed the daemon or left work pending: (state, spawns, '
+                          'signals, events, pending callbacks) %s -> %s' % (ev.label, slot, before, after),
+                          where='controller.dispatch/cast')
                 continue
             res.check('C10.refused', rep is not None and rep.get('status') == 'error',
                       lambda: 'Y=%s sent while %r held the slot was answered %r' % (ev.label, slot, rep),
